@@ -208,6 +208,11 @@ def correspond(ctx, corr):
         for a in objs:
             for d in backgrounds(bits, False):
                 f = ForwardFrame(bits, d)
+                if rng.random() < 0.5:
+                    # a frame that has already been read is still an ordinary frame: what is written into it
+                    # afterwards is what the next read must find
+                    A.from_frame(f)
+                    A.instance_from_frame(f)
                 a.add_to_frame(f)
                 add("aadd %s %d %d" % (cc.addr_tok(a), bits, d), "ok %d %d" % (len(f), f.as_integer))
                 back = A.from_frame(f)
@@ -227,6 +232,9 @@ def correspond(ctx, corr):
     for i in insts + reserved:
         for d in backgrounds(24, False):
             f = ForwardFrame(24, d)
+            if rng.random() < 0.5:
+                A.instance_from_frame(f)
+                A.from_frame(f)
             i.add_to_frame(f)
             add("iadd %s 24 %d" % (cc.inst_tok(i), d), "ok 24 %d" % f.as_integer)
             back = A.instance_from_frame(f)
